@@ -460,6 +460,21 @@ var kC19Input = run.NewKind("c19.input", func(c *run.Ctx, t c19InputCase) *run.F
 				return run.Failf("WithInputIter: %q: draw #%d logged %s, want %s", row.Src, i, l, want)
 			}
 		}
+		// the library's own slice iterator over a list the caller keeps: a second compilation over the same list sees the same inputs
+		shared := []any{0, 1, 2, 3, 4}
+		for round := 0; round < 2; round++ {
+			cr2 := run.Compile(row.Src, gojq.WithInputIter(gojq.NewIter(shared...)))
+			if cr2.Code == nil {
+				return run.Failf("WithInputIter(NewIter): %q does not compile: %v %s", row.Src, cr2.Err, cr2.Panic)
+			}
+			tr2 := run.RunCode(cr2.Code, row.Input, nil, defBudget, 0)
+			if d, _ := run.SameTrace(tr, tr2, run.DiffOpt{}); d != "" {
+				return run.Failf("WithInputIter(gojq.NewIter(list...)), use #%d of the same list: %q gave %s, the instrumented iterator over the same values gave %s (%s)", round+1, row.Src, run.TraceDesc(tr2), run.TraceDesc(tr), d)
+			}
+			if run.Canon(shared) != "[0,1,2,3,4]" {
+				return run.Failf("WithInputIter(gojq.NewIter(list...)): after running %q the caller's list is %s", row.Src, run.Canon(shared))
+			}
+		}
 		c.Count("input_table_rows", 1)
 		c.Count("input_draws_checked", int64(len(log)))
 		c.Nontrivial("tab:" + row.Src)
